@@ -224,6 +224,40 @@ class Obs:
                                         f"phantom CVR {c.id} compared with a manual record of assorter value {a_m}: "
                                         f"overstatement {om!r}, expected 1/2 - {a_m}")
 
+        # a card first recorded as found turns out to be another card: the same record object is flagged unfindable
+        # afterwards and the sample is scored again (then the flag is taken back: later rounds see the original record)
+        late = [(m, c) for m, c in zip(run.mvr_sample, run.cvr_sample) if not m.phantom and not c.phantom][:2]
+        for m, c in late:
+            m.phantom = True
+            try:
+                out.fault("F16 record flagged unfindable after it was first scored")
+                for cid, con in run.contests.items():
+                    for key, asn in con.assertions.items():
+                        try:
+                            with W.quiet():
+                                d, _u = asn.mvrs_to_data(run.mvr_sample, run.cvr_sample)
+                                exp = [asn.overstatement_assorter(mm, cc, use_style=style)
+                                       for mm, cc in zip(run.mvr_sample, run.cvr_sample)
+                                       if (not style) or (cc.has_contest(cid) and cc.sample_num <= con.sample_threshold)]
+                        except Exception as e:
+                            out.raised("mvrs_to_data(after late flag)", e)
+                            continue
+                        d = [float(v) for v in d]
+                        if len(d) != len(exp) or any(not close(a, b) for a, b in zip(d, exp)):
+                            out.violate("C08.e", f"{run.world['contests'][cid]['choice_function']}/style={style}/flagged-after-first-scoring",
+                                        f"card {c.id} was flagged unfindable after round {r} had been scored once; scored again, "
+                                        f"{cid}/{key} gets {d[:6]}, the records as they now stand give {[float(v) for v in exp[:6]]}")
+            finally:
+                m.phantom = False
+        if late:
+            for cid, con in run.contests.items():  # leave every assertion as the driver's own scoring left it
+                for key, asn in con.assertions.items():
+                    try:
+                        with W.quiet():
+                            asn.mvrs_to_data(run.mvr_sample, run.cvr_sample)
+                    except Exception:
+                        pass
+
     def manifest_lookups(self, run):
         """C08.g for lookups from the manifest: phantom manual records exactly for the numbers in the phantom batch"""
         out, ns = self.out, run.ns
